@@ -618,7 +618,9 @@ impl IoLoop {
                         PollOpt::edge(),
                     )
                     .context(RegisterWithPollHandleSnafu)?;
-            } else if had_data_to_write {
+            } else if had_data_to_write && !self.inner.has_data_to_write() {
+                // (If data is still pending here we have not finished our very first writes:
+                // stay registered for writable instead of dropping that interest.)
                 trace!("reregistering socket for readable only");
                 have_written_to_socket = true;
                 self.poll
